@@ -139,6 +139,7 @@ def run_conc(sess, spec, loop_bound=6, max_rounds=8, timeout_s=600, max_spurious
     leaves = {}
     rounds = 0
     widened = set()
+    env_seen = {}
     while True:
         rounds += 1
         if rounds > max_rounds:
@@ -163,6 +164,13 @@ def run_conc(sess, spec, loop_bound=6, max_rounds=8, timeout_s=600, max_spurious
                         ent[1] = ent[1] or top
                 env.foreign_objs += sorted(objs[j])
             env.other_writes = {a: (v[0], v[1], v[2]) for a, v in merged.items()}
+            envkey = (tuple(sorted((a, tuple(sorted(v[0])), v[1], v[2]) for a, v in merged.items())), tuple(env.foreign_objs))
+            if env_seen.get(i) == envkey and i in leaves:
+                # nothing this thread can observe changed since its last extraction: keep it
+                new_summ[i] = summ[i]
+                new_objs[i] = objs[i]
+                continue
+            env_seen[i] = envkey
             s0 = base.fork()
             s0.events = []
             s0.pc = []
@@ -243,7 +251,7 @@ def gated(eng, e):
         if fr.startswith('library/core/src/sync/atomic.rs'):
             continue
         if fr.startswith('harness/src/rt.rs'):
-            return '(peek)' not in fr and '(store_ungated)' not in fr
+            return '(peek)' not in fr and '(store_ungated)' not in fr and '(slots_all_empty)' not in fr
         return fr.startswith('src/')
     return False
 
